@@ -853,7 +853,7 @@ pub fn scale(out_dir: &str, thorough: bool, seed: u64) -> i32 {
     std::fs::create_dir_all(out_dir).unwrap();
     let mut r = Rng::new(seed ^ 0x5CA1E);
     let mut recs: Vec<Value> = vec![];
-    let final_len: usize = if thorough { 4 << 20 } else { 1 << 20 };
+    let final_len: usize = if thorough { 8 << 20 } else { 3 << 20 };
     // ---- push loops: every growth event, from four kinds of start
     static LONG_STATIC: &str = "a static text that is longer than sixteen bytes, used as the start of a push loop";
     for (start, piece) in [("inline", "a"), ("static", "a"), ("shared", "€"), ("heap-exact", "ab"), ("with_capacity", "𝄞")] {
@@ -891,8 +891,9 @@ pub fn scale(out_dir: &str, thorough: bool, seed: u64) -> i32 {
         drop(keep);
     }
     // ---- reserve / insert growth at large sizes
-    for _ in 0..(if thorough { 60 } else { 20 }) {
-        let len = 1000 + r.below(200_000);
+    let mut big_lens = vec![(1usize << 20) - 1, (1 << 20) + 1, 3 << 20, (5 << 20) + 7];
+    for i in 0..(if thorough { 60 } else { 20 }) {
+        let len = if i < big_lens.len() { std::mem::take(&mut big_lens[i]) } else { 1000 + r.below(200_000) };
         let mut s = LeanString::from("x".repeat(len).as_str());
         let add = *r.pick(&[1usize, 7, len / 3, len / 2, len / 2 + 1, len, 3 * len]);
         let how = r.below(3);
@@ -1042,6 +1043,108 @@ pub fn scale(out_dir: &str, thorough: bool, seed: u64) -> i32 {
             "fits":fits,"dA":st.d_a,"dR":st.d_r,"sameptr":ptr == s.as_ptr() as usize}));
     }
     drop(s);
+    // ---- shrinking buffers that carry kilobytes of spare room (C13 at scale)
+    for &(len, cap) in &[(48usize, 8192usize), (2, 5000), (100, 4196), (100, 4195), (5000, 20000), (17, 4200), (16, 6000), (40, 1 << 20), (3000, 3000 + 4096)] {
+        let mut ms = vec![0usize, len / 2, len, len + 1, len + 50, 64, 1000, cap.saturating_sub(4097), cap.saturating_sub(4096), cap - 1, cap, cap + 10];
+        ms.sort_unstable();
+        ms.dedup();
+        for m in ms {
+            for shared in [false, true] {
+                for fit in [false, true] {
+                    if fit && m != 0 {
+                        continue;
+                    }
+                    let text = "s".repeat(len);
+                    let mut s = LeanString::with_capacity(cap);
+                    s.push_str(&text);
+                    let keep = if shared { Some(s.clone()) } else { None };
+                    let cap1 = s.capacity();
+                    let before = shim::begin_call(&[]);
+                    let r = if fit { s.try_shrink_to_fit() } else { s.try_shrink_to(m) };
+                    let _ = shim::end_call(before);
+                    let others = keep.as_ref().map(|k| k.as_str() == text && k.capacity() == cap1).unwrap_or(true);
+                    recs.push(json!({"k":"shrink","len":len,"cap1":cap1,"m":m,"shared":shared,"fit":fit,"ok":r.is_ok(),"cap2":s.capacity(),"heap2":s.is_heap_allocated(),
+                        "teq":s.as_str() == text,"others":others}));
+                }
+            }
+        }
+    }
+    // ---- unsatisfiable sizes on long targets (C06 at scale): a page or more of text, every kind of owner
+    let sizes_for = |len: usize| -> Vec<(String, usize)> {
+        let mut v = vec![];
+        for k in [0usize, 1, 2, 15, 16, 17, 100, 4000, 4079, 4080, 4081, 4095, 4096, 4097, 8192, 65536] {
+            v.push((format!("MAX-len-{k}"), usize::MAX - len - k));
+            v.push((format!("MAX-{k}"), usize::MAX - k));
+        }
+        for j in 0..5usize {
+            v.push((format!("2^56-1-len{:+}", j as i64 - 2), (1usize << 56) - 1 - len + j - 2));
+            v.push((format!("isize::MAX-len{:+}", j as i64 - 2), isize::MAX as usize - len + j - 2));
+            v.push((format!("isize::MAX{:+}", j as i64 - 2), isize::MAX as usize + j - 2));
+        }
+        for p in [31usize, 40, 47, 48, 55, 56, 57, 62, 63] {
+            v.push((format!("2^{p}"), 1usize << p));
+        }
+        v
+    };
+    for &len in &[4095usize, 4096, 4097, 65536] {
+        for state in ["unique", "shared", "cut", "static"] {
+            let text = "L".repeat(len);
+            let leaked: &'static str = Box::leak(text.clone().into_boxed_str());
+            for (class, size) in sizes_for(len) {
+                for hint in [false, true] {
+                    let (mut s, keep): (LeanString, Option<LeanString>) = match state {
+                        "unique" => (LeanString::from(text.as_str()), None),
+                        "shared" => {
+                            let a = LeanString::from(text.as_str());
+                            (a.clone(), Some(a))
+                        }
+                        "cut" => {
+                            let a = LeanString::from(format!("{text}and a tail that the other handle still reads").as_str());
+                            let mut b = a.clone();
+                            b.truncate(len);
+                            (b, Some(a))
+                        }
+                        _ => (LeanString::from_static_str(leaked), None),
+                    };
+                    let (ptr, cap) = (s.as_ptr() as usize, s.capacity());
+                    let keep_text = keep.as_ref().map(|k| k.as_str().to_string());
+                    let before = shim::begin_call(&[]);
+                    let out = std::panic::catch_unwind(std::panic::AssertUnwindSafe(|| {
+                        if hint {
+                            struct Liar(usize, std::str::Chars<'static>);
+                            impl Iterator for Liar {
+                                type Item = char;
+                                fn next(&mut self) -> Option<char> {
+                                    self.1.next()
+                                }
+                                fn size_hint(&self) -> (usize, Option<usize>) {
+                                    (self.0, None)
+                                }
+                            }
+                            s.extend(Liar(size, "xy".chars()));
+                            Ok(())
+                        } else {
+                            s.try_reserve(size)
+                        }
+                    }));
+                    let _ = shim::end_call(before);
+                    let cls = match &out {
+                        Ok(Ok(())) => "ok",
+                        Ok(Err(_)) => "err",
+                        Err(_) => "panic",
+                    };
+                    let expect = if hint { format!("{text}xy") } else { text.clone() };
+                    let same = hint || (s.as_ptr() as usize == ptr && s.capacity() == cap);
+                    let others = match (&keep, &keep_text) {
+                        (Some(k), Some(t)) => k.as_str() == t,
+                        _ => true,
+                    };
+                    recs.push(json!({"k":"bigsize","len":len,"state":state,"class":class,"hint":hint,"cls":cls,"teq":s.as_str() == expect,"same":same,"others":others,
+                        "capok":s.capacity() >= s.len()}));
+                }
+            }
+        }
+    }
     let errs = shim::finish_history();
     let mut out = std::io::BufWriter::new(std::fs::File::create(format!("{out_dir}/conv_000.ndjson")).unwrap());
     for rec in &recs {
